@@ -47,7 +47,7 @@ func setRegistry(on bool) {
 	redact.VerifResetSafeTypes()
 	regTypes = map[reflect.Type]bool{}
 	if on {
-		for _, t := range []reflect.Type{reflect.TypeOf(RegInt(0)), reflect.TypeOf(RegStr("")), reflect.TypeOf(URegStringer{})} {
+		for _, t := range []reflect.Type{reflect.TypeOf(RegInt(0)), reflect.TypeOf(RegStr("")), reflect.TypeOf(URegStringer{}), reflect.TypeOf(RegSt{})} {
 			redact.RegisterSafeType(t)
 			regTypes[t] = true
 		}
@@ -214,6 +214,24 @@ func (v *Val) build() interface{} {
 				r[k.S] = v.Elems[i].Build()
 			}
 			return r
+		case "map[MyStr]interface{}":
+			r := map[MyStr]interface{}{}
+			for i, k := range v.Keys {
+				r[MyStr(k.S)] = v.Elems[i].Build()
+			}
+			return r
+		case "map[SvStr]interface{}":
+			r := map[SvStr]interface{}{}
+			for i, k := range v.Keys {
+				r[SvStr(k.S)] = v.Elems[i].Build()
+			}
+			return r
+		case "map[RegStr]interface{}":
+			r := map[RegStr]interface{}{}
+			for i, k := range v.Keys {
+				r[RegStr(k.S)] = v.Elems[i].Build()
+			}
+			return r
 		case "map[int]interface{}":
 			r := map[int]interface{}{}
 			for i, k := range v.Keys {
@@ -225,6 +243,8 @@ func (v *Val) build() interface{} {
 		switch v.GoT {
 		case "St2":
 			return St2{A: v.Elems[0].Build(), b: v.Elems[1].Build()}
+		case "RegSt":
+			return RegSt{N: v.Elems[0].S, V: int(v.Elems[1].I)}
 		case "St4":
 			return St4{L: v.Elems[0].Build().(UStrSafeValue), secret: v.Elems[1].S}
 		case "St5":
@@ -243,6 +263,12 @@ func (v *Val) build() interface{} {
 				return (*St2)(nil)
 			}
 			x := v.Elems[0].Build().(St2)
+			return &x
+		case "*RegSt":
+			if v.Nil {
+				return (*RegSt)(nil)
+			}
+			x := v.Elems[0].Build().(RegSt)
 			return &x
 		case "*int":
 			if v.Nil {
